@@ -15,6 +15,11 @@ with a template typed member, concrete subclass chain, a function with 10..12 pa
 call the wide function. Imports may stand after other top-level statements (`late`); a module may die with an unexpected
 exception while loading (`crash`); import edges: model == Entrypoint.imports (stream) == Python ast (search). Memoised lists / dicts / sets handed out by the real Memoize.get record every in-place mutation (oracle
 `memo-mutated`). State inventory: translate/gen_session_state.py -> Generated/SessionState.lean (theorems inventory_*).
+The unload methods: translate/gen_unload_shape.py -> Generated/UnloadShape.lean (theorems unload_one_generated / unload_generated);
+the library closure: translate/gen_lib_closure.py -> Generated/LibClosure.lean (lib_closure_*, compared with the real App on every run).
+In-memory submissions may declare nothing (expression statements only) or die while their imports load, and are followed by another
+text for the same path; after every op the registry, the parsed sources and the symbol table are read independently (`unload-residue`).
+The fresh-process answers are asked for in a background thread while the sessions run (same requests, same answers: keyed by content).
 """
 from __future__ import annotations
 
@@ -394,15 +399,27 @@ def stub_g() -> dict[str, Any]:
 _G_KEYS: int | None = None
 
 
+def measured_keys(ctx: Ctx, proj: str, name: str, named: int) -> int:
+	"""Number of symbol keys of a stub module in a session of its own. When the real code cannot load the stub (or does not answer
+	within the budget) the model is told there are no further keys: the sessions that use the stub then show the failure themselves
+	(stream + session-vs-fresh), the harness goes on."""
+	try:
+		with op_budget():
+			ses = RealSession(proj, warm_cache(ctx, prelude(ctx)['cache']))
+			ses.modules.load(name)
+			return max(named, len(list(ses.db.items(name))))
+	except (Exception, OpTimeout) as e:  # noqa: BLE001
+		ctx.notes.append(f'stub module {name} could not be measured on the real code: {canon(e) if isinstance(e, Exception) else "timeout"}')
+		return named
+
+
 def g_extra(ctx: Ctx) -> int:
 	"""Number of symbol keys of the generic module beyond the four the descriptor names (measured on the real code)."""
 	global _G_KEYS
 	if _G_KEYS is None:
 		proj = ctx.tmpdir('c04-g-')
 		write_pool(proj, [stub_g()])
-		ses = RealSession(proj, warm_cache(ctx, prelude(ctx)['cache']))
-		ses.modules.load(G_NAME)
-		_G_KEYS = len(list(ses.db.items(G_NAME)))
+		_G_KEYS = measured_keys(ctx, proj, G_NAME, 4)
 	return _G_KEYS - 4
 
 
@@ -472,9 +489,7 @@ def stub_extra(ctx: Ctx, mod: dict[str, Any]) -> int:
 		if hv not in _H_KEYS:
 			proj = ctx.tmpdir('c04-h-')
 			write_pool(proj, [mod])
-			ses = RealSession(proj, warm_cache(ctx, prelude(ctx)['cache']))
-			ses.modules.load(H_NAME)
-			_H_KEYS[hv] = len(list(ses.db.items(H_NAME)))
+			_H_KEYS[hv] = measured_keys(ctx, proj, H_NAME, 8)
 		return _H_KEYS[hv] - 8
 	return 0
 
@@ -958,12 +973,16 @@ def ast_imports(source: str) -> str:
 
 def import_edges(ctx: Ctx, proj: str, pool: list[dict[str, Any]]) -> list[dict[str, Any]]:
 	"""Entrypoints.load parses one file and registers nothing in Modules: a session of its own, only used as a parser."""
-	probe = RealSession(proj, warm_cache(ctx, prelude(ctx)['cache']))
+	try:
+		probe = RealSession(proj, warm_cache(ctx, prelude(ctx)['cache']))
+	except Exception:  # noqa: BLE001 - reported by the session itself (`app-construction`)
+		probe = None
 	out = []
 	for mod in pool:
 		try:
-			rl = ','.join(i.import_path.tokens for i in probe.eps.load(mod['name']).imports)
-		except Exception:  # noqa: BLE001 - a file that does not parse has no edges (the model says `none` as well)
+			with op_budget():
+				rl = ','.join(i.import_path.tokens for i in probe.eps.load(mod['name']).imports)  # type: ignore[union-attr]
+		except (Exception, OpTimeout):  # noqa: BLE001 - a file that does not parse has no edges (the model says `none` as well)
 			rl = 'none'
 		out.append({'module': mod['name'], 'real': rl, 'ast': ast_imports(render_source(mod)), 'source': render_source(mod)})
 	return out
@@ -1709,6 +1728,8 @@ PARTIAL: dict[str, Any] = {
 	'proved': 'cache coherence for all histories (inv, frame, unload_*, stack_frames); determinism for all histories of operations incl. failing ones (det, det_ref), unload/load = fresh load, target-order equivariance — on the model of the repaired Modules (rollback, cascade, re-check)',
 	'cycles': 'the model follows the code on import cycles (registration before imports, Module.identity() of c3eaa55: depth-first walk of the import closure with a visited set, mid-load fallback -> Errors.Fatal for a missing import file, self-imports, rollback, cascade) and is tied by the streams on cyclic pools; det / det_all assume an acyclic import graph, so for cyclic pools session == fresh is checked by the search only',
 	'remaining_hypotheses': 'World: dotted module names; ExpandModules / renderer read the symbol table only inside the import closure (proved for the descriptor language); acyclic import graph; no file imports the in-memory module; the library modules and their imports are a pinned base that the history does not unload; no RecursionError',
+	'generated_model_parts': 'the four unload methods (statement lists, proved equal to the hand-written unloadOne / unload cascade: unload_one_generated, unload_generated), the inventory of state sites (inventory_*), the library closure with its import edges (lib_closure_*) are read from the sources on every run; an unknown shape is a TranslateError',
+	'registry_residue': 'that Entrypoints / SymbolDB keys / SymbolDB completed never know a module Modules does not list, and that unload m leaves nothing of m in any of the four: proved on the model (inv: Coherent; unload_resets), tied by the streams (all four tables are in every observation), and checked on the real code alone after every op of every session (search unload-residue)',
 	'regression': 'the three former counterexamples (failed-load-retry, dep-unloaded, lib-closure-first) are examples proved equal to the fresh result by decide, and corpus cases that must pass on the real code',
 	'correspondence_only': 'that the real Modules/Entrypoints/SymbolDB/processors/transpile stacks behave like the model on generated pools (streams session, session-faulty); the concrete descriptor language (which keys ExpandModules inserts, when the renderer fails)',
 	'search_only': 'PYTHONHASHSEED independence (incl. the order of lambda capture lists), byte equality of real texts with a fresh process, purity of Jinja/i18n rendering, node classes / definition node facts / symbol object identity and attribute trees of untouched and of reloaded modules (memoised node properties, symbol snapshot restore order), in-place mutation of memoised containers (recording lists / dicts / sets handed out by Memoize.get in every session), unloading library modules',
